@@ -2,13 +2,15 @@
    PARTIAL: proved over the reals: the point test of circle.go (haversine of the
    point against the stored haversine of the radius) is exactly "great-circle
    distance <= radius" for radii up to half the circumference, is monotone in the
-   radius and symmetric in operand order.  The circle-circle tests, Point /
-   SimplePoint dispatch, serialisation and the polygon approximation are checked
-   on every run by flags; point decisions of sampled cases are certified by
+   radius and symmetric in operand order; the circle-circle tests are exact as
+   point sets (Intersects: the discs share a location iff centre distance <= sum
+   of radii; Contains: sound always, complete while the far side of B stays short
+   of A's antipode).  Point / SimplePoint dispatch, serialisation, the polygon
+   approximation and float64 rounding are checked on every run by flags; point decisions of sampled cases are certified by
    interval arithmetic against the model. *)
 From Coq Require Import Reals Lra.
 From Interval Require Import Tactic.
-From GJ Require Import Sphere SphereRect SphereTriangle.
+From GJ Require Import Sphere SphereRect SphereTriangle SphereMeet.
 Open Scope R_scope.
 
 Theorem C13_contains_point_iff_distance : forall clat clon meters plat plon,
@@ -37,6 +39,23 @@ Theorem C13_circles_meet_only_if_close : forall latA lonA rA latB lonB rB plat p
   distance_to latA lonA latB lonB <= rA + rB.
 Proof. exact circles_meet_only_if_close. Qed.
 
+(* ... and the "if" half: a centre distance of at most the sum of the radii yields a common location (a
+   centre when one disc reaches the other's centre, otherwise the point of the great arc from A to B at
+   distance rA from A), so Circle.Intersects(Circle) is exact as point sets *)
+Theorem C13_circles_meet_iff_close : forall latA lonA rA latB lonB rB,
+  lat_ok latA -> lat_ok latB -> 0 <= rA <= piR -> 0 <= rB <= piR ->
+  (distance_to latA lonA latB lonB <= rA + rB <->
+   exists plat plon, lat_ok plat /\ circle_contains_point latA lonA rA plat plon /\ circle_contains_point latB lonB rB plat plon).
+Proof. exact circles_meet_iff. Qed.
+(* Circle.Contains(Circle) is also complete: if every location of B is within A then centre distance +
+   radius of B <= radius of A, as long as that sum does not pass half the circumference *)
+Theorem C13_circle_contains_circle_complete : forall latA lonA rA latB lonB rB,
+  lat_ok latA -> lat_ok latB -> 0 <= rA <= piR -> 0 <= rB <= piR ->
+  distance_to latA lonA latB lonB + rB <= piR ->
+  (forall plat plon, lat_ok plat -> circle_contains_point latB lonB rB plat plon -> circle_contains_point latA lonA rA plat plon) ->
+  distance_to latA lonA latB lonB + rB <= rA.
+Proof. exact circle_contains_circle_complete. Qed.
+
 (* non-vacuity: concentric circles of 3 km and 1 km, the common centre as the point *)
 Example C13_circle_hypotheses_hold_somewhere : lat_ok 10 /\ 0 <= 1000 <= piR /\ 0 <= 3000 <= piR /\ distance_to 10 20 10 20 + 1000 <= 3000 /\ circle_contains_point 10 20 1000 10 20.
 Proof.
@@ -48,3 +67,5 @@ Qed.
 
 Print Assumptions C13_contains_point_iff_distance.
 Print Assumptions C13_circle_contains_circle_sound.
+Print Assumptions C13_circles_meet_iff_close.
+Print Assumptions C13_circle_contains_circle_complete.
